@@ -13,6 +13,7 @@ import vlib
 
 PROG = "flight"
 ALL_CLASSES = ["truncate", "length", "duplicate", "drop", "oddlist", "swap", "insert"]
+IMPORT_CLASSES = ALL_CLASSES + ["versions"]   # C07 only: (record version, legacy_version) pairs
 ALL_DOC_CLASSES = ["missing", "size", "unknown", "wrongtype", "empty", "range"]
 # reasons that say "the machinery did not do what TLC asked", never a judgement about the library
 MACHINERY_WHY = {"binding", "layout", "baseline-failed", "no-baseline", "unknown-row", "capture-invalid", "capture-unusable", "baseline-doc-unusable"}
@@ -417,7 +418,7 @@ def run_import_family(ctx, pid, cases, map_cases, json_docs):
         raise vlib.Machinery("%s: no ClientHello could be captured: %s" % (pid, skipped))
     recs = {name: a["rec0"] for name, (a, b) in caps.items()}
     hellos = [{"name": "map:" + n, "hs": recs[n][5:]} for n in map_cases if n in recs]
-    scn, pos = enumerate_scenarios(ctx, rec_flights(caps), json_docs, hellos, ALL_CLASSES, False, ALL_DOC_CLASSES, pid.lower(), nshards=12)
+    scn, pos = enumerate_scenarios(ctx, rec_flights(caps), json_docs, hellos, IMPORT_CLASSES, False, ALL_DOC_CLASSES, pid.lower(), nshards=12)
     rp = getattr(ctx, "replay", None)
     if rp:
         want = rp["replay"]
@@ -544,8 +545,8 @@ def run_import_family(ctx, pid, cases, map_cases, json_docs):
 
     # vacuity
     rcls, dcls = {r["cls"] for r in rrows}, {r["cls"] for r in drows}
-    if set(ALL_CLASSES) - {"insert"} - rcls or set(ALL_DOC_CLASSES) - dcls:
-        raise vlib.Machinery("%s: class never exercised: %s %s" % (pid, sorted(set(ALL_CLASSES) - {"insert"} - rcls), sorted(set(ALL_DOC_CLASSES) - dcls)))
+    if set(IMPORT_CLASSES) - {"insert"} - rcls or set(ALL_DOC_CLASSES) - dcls:
+        raise vlib.Machinery("%s: class never exercised: %s %s" % (pid, sorted(set(IMPORT_CLASSES) - {"insert"} - rcls), sorted(set(ALL_DOC_CLASSES) - dcls)))
     nbase = sum(1 for r in rrows if r["op"] == "none")
     if stats["valid"] <= nbase or stats["usable"] <= nbase:
         raise vlib.Machinery("%s: vacuous: only %d valid / %d usable hellos among %d inputs (baselines %d)" % (pid, stats["valid"], stats["usable"], len(rrows), nbase))
